@@ -152,6 +152,11 @@ class VttContext:
       if bg_color is not None:
         self._paragraphs[-1].append_text(style.BG_COLOR_TAG_OUT)
 
+    if isinstance(element, (model.Ruby, model.Rbc, model.Rb)):
+      # ruby base text is written; annotations (rtc, rt, rp) are not
+      for elem in list(element):
+        self.process_inline_element(elem, begin, end)
+
     if isinstance(element, model.Br):
       self._paragraphs[-1].append_text("\n")
 
